@@ -13,8 +13,8 @@ import (
 
 func init() {
 	fw.Register(&fw.Check{
-		ID: "C10",
-		Rule: "cases: a starting document (empty, reached from {} by validated patches, or generated with well-formed key/service/also-known-as lists and free members) and a list of 1..8 validated patches over all eight actions drawn from small id pools (6 key ids, 4 service ids, 5 URIs) so that collisions, partial overlap and misses dominate; ietf-json-patch operations are valid under RFC 6902 on the model's current document. Oracle: harness patch model (left fold) incl. an RFC 6902 evaluator; keys/services/also-known-as compared as ordered lists (absent == null == []), everything else by JSON equality; unique ids preserved. A mismatch that an aliasing-copy variant of the evaluator reproduces is fingerprinted as the known json-patch copy-alias behaviour. distinct = distinct (start kind, action sequence) signatures.",
+		ID:          "C10",
+		Rule:        "cases: a starting document (empty, reached from {} by validated patches, or generated with well-formed key/service/also-known-as lists and free members) and a list of 1..8 validated patches over all eight actions drawn from small id pools (6 key ids, 4 service ids, 5 URIs) so that collisions, partial overlap and misses dominate; ietf-json-patch operations are valid under RFC 6902 on the model's current document. Oracle: harness patch model (left fold) incl. an RFC 6902 evaluator; keys/services/also-known-as compared as ordered lists (absent == null == []), everything else by JSON equality; unique ids preserved. A mismatch that an aliasing-copy variant of the evaluator reproduces is fingerprinted as the known json-patch copy-alias behaviour. distinct = distinct (start kind, action sequence) signatures.",
 		Assumptions: []string{"harness patch model and RFC 6902 evaluator (self-tested against RFC 6902 appendix A at worker start)", "JSON numbers compared as IEEE doubles (the library itself round-trips documents through float64)"},
 		Require:     []string{"lists", "ietf-patches", "collisions", "copy-alias-directed"},
 		Run:         runC10,
@@ -93,7 +93,7 @@ func runC10(r *fw.Runner) {
 		s1, s2, s1b := gen.RandService(rr, "svc1"), gen.RandService(rr, "svc2"), gen.RandService(rr, "svc1")
 		doc := map[string]interface{}{"publicKey": []interface{}{k1, k2, k3}, "service": []interface{}{s1, s2}, "alsoKnownAs": []interface{}{"did:example:a", "did:example:b"}, "foo": "bar"}
 		lists := [][]interface{}{
-			{gen.PAddKeys(k2b)},                     // replace in the middle keeps order
+			{gen.PAddKeys(k2b)},                           // replace in the middle keeps order
 			{gen.PAddKeys(k1b, gen.RandDocKey(rr, "K5"))}, // replace first + append
 			{gen.PAddKeys(gen.RandDocKey(rr, "K5"), k2b, gen.RandDocKey(rr, "signing"))},
 			{gen.PRemoveKeys("key2", "nope")},
